@@ -132,20 +132,23 @@ Definition tolower (c : N) : N := if (65 <=? c) && (c <=? 90) then c + 32 else c
 Definition strcaseeq (a b : bytes) : bool := beq (map tolower a) (map tolower b).
 
 
+(* List.rev, linear *)
+Definition frev (b : bytes) : bytes := rev_append b [].
+
 (* wbxml_buffer_contains_only_whitespaces *)
 Definition only_ws (b : bytes) : bool := forallb isspace b.
 
 (* wbxml_buffer_strip_blanks *)
 Fixpoint drop_ws (b : bytes) : bytes :=
   match b with c :: r => if isspace c then drop_ws r else b | [] => [] end.
-Definition strip_blanks (b : bytes) : bytes := rev (drop_ws (rev (drop_ws b))).
+Definition strip_blanks (b : bytes) : bytes := frev (drop_ws (frev (drop_ws b))).
 
 (* wbxml_buffer_split_words *)
 Fixpoint split_words_aux (b : bytes) (cur : bytes) : list bytes :=
   match b with
-  | [] => match cur with [] => [] | _ => [rev cur] end
+  | [] => match cur with [] => [] | _ => [frev cur] end
   | c :: r => if isspace c
-              then match cur with [] => split_words_aux r [] | _ => rev cur :: split_words_aux r [] end
+              then match cur with [] => split_words_aux r [] | _ => frev cur :: split_words_aux r [] end
               else split_words_aux r (c :: cur)
   end.
 Definition split_words (b : bytes) : list bytes := split_words_aux b [].
@@ -153,7 +156,7 @@ Definition split_words (b : bytes) : list bytes := split_words_aux b [].
 (* wbxml_buffer_remove_trailing_zeros *)
 Fixpoint drop_zeros (b : bytes) : bytes :=
   match b with c :: r => if c =? 0 then drop_zeros r else b | [] => [] end.
-Definition remove_trailing_zeros (b : bytes) : bytes := rev (drop_zeros (rev b)).
+Definition remove_trailing_zeros (b : bytes) : bytes := frev (drop_zeros (frev b)).
 
 (* ------------------------------------------------------------------ *)
 (* table searches (wbxml_tables.c)                                       *)
